@@ -7,7 +7,7 @@ import ast
 from typing import Dict, List, Optional, Set
 
 from ..core import astq
-from ..core.program import AnalysisError, ClassInfo, Program, ancestors, norm, short, walk_function
+from ..core.program import enclosing_stmt, AnalysisError, ClassInfo, Program, ancestors, norm, short, walk_function
 from ..engines.selfstate import SelfState
 from ..report import Result
 from ..runner import Variant
@@ -312,12 +312,97 @@ def check_width(prog: Program, res: Result) -> None:
     res.floor(R, 3)
 
 
+def _perm_of(fi_cls, e: ast.AST, var: str):
+    """Permutation (list) that expression `e` applies to the 4-D tensor `var`, through .permute / Permute modules /
+    .transpose / .contiguous; None if something else happens to it."""
+    perm = [0, 1, 2, 3]
+    chain = []
+    cur = e
+    while True:
+        if isinstance(cur, ast.Name) and cur.id == var:
+            break
+        if isinstance(cur, ast.Call) and isinstance(cur.func, ast.Attribute):
+            f = cur.func
+            if f.attr in ("contiguous", "clone", "float") and not cur.args:
+                cur = f.value
+                continue
+            if f.attr == "permute" and not (isinstance(f.value, ast.Name) and f.value.id == "self"):
+                a = cur.args[0].elts if len(cur.args) == 1 and isinstance(cur.args[0], (ast.Tuple, ast.List)) else cur.args
+                chain.append(("perm", [astq.const_value(x) for x in a]))
+                cur = f.value
+                continue
+            if f.attr in ("transpose", "swapaxes") and len(cur.args) == 2:
+                chain.append(("swap", [astq.const_value(x) for x in cur.args]))
+                cur = f.value
+                continue
+            if isinstance(f.value, ast.Name) and f.value.id == "self" and len(cur.args) == 1:
+                # self.<attr>(x) where <attr> = Permute([...]) in __init__
+                init = fi_cls.methods.get("__init__")
+                defs = [s_ for s_ in walk_function(init.node) if isinstance(s_, ast.Assign) and norm(s_.targets[0]) == f"self.{f.attr}"] if init else []
+                if len(defs) == 1 and isinstance(defs[0].value, ast.Call) and norm(defs[0].value.func).split(".")[-1] == "Permute" and defs[0].value.args:
+                    try:
+                        chain.append(("perm", list(ast.literal_eval(defs[0].value.args[0]))))
+                    except Exception:
+                        return None
+                    cur = cur.args[0]
+                    continue
+        return None
+    for kind, a in reversed(chain):
+        if any(not isinstance(x, int) for x in a):
+            return None
+        a = [x % 4 for x in a]
+        if kind == "perm":
+            if sorted(a) != [0, 1, 2, 3]:
+                return None
+            perm = [perm[i] for i in a]
+        else:
+            q = [0, 1, 2, 3]
+            q[a[0]], q[a[1]] = q[a[1]], q[a[0]]
+            perm = [perm[i] for i in q]
+    return perm
+
+
+def check_layout(prog: Program, res: Result) -> None:
+    """Swin-T stages work channels-last: the stem permutes (B,C,H,W) -> (B,H,W,C); every feature map handed to the
+    decoder must undo exactly that permutation, otherwise height and width (or channels) are exchanged and the output
+    is (parts, W/stride, H/stride) for non-square inputs."""
+    R = "C14-layout"
+    ci = prog.cls("sleap_nn.architectures.swint:SwinTransformerEncoder")
+    init, fwd = ci.methods.get("__init__"), ci.methods.get("forward")
+    if init is None or fwd is None:
+        raise AnalysisError("SwinTransformerEncoder.__init__/forward vanished")
+    res.touch(init)
+    res.touch(fwd)
+    stem = [c for c in walk_function(init.node) if isinstance(c, ast.Call) and norm(c.func).split(".")[-1] == "Permute" and c.args
+            and any(isinstance(a, ast.Call) and norm(a.func).endswith("Sequential") for a in ancestors(c))]
+    res.ob(R, len(stem) == 1, init.qualname, "one layout permutation in the patch-embedding stem", f"{len(stem)} Permute modules in the stem", init.where)
+    if len(stem) != 1:
+        return
+    try:
+        p = list(ast.literal_eval(stem[0].args[0]))
+    except Exception:
+        raise AnalysisError("SwinTransformerEncoder: stem Permute argument is not a literal")
+    apps = [c for c in astq.method_calls(fwd.node, "append") if c.args]
+    res.ob(R, len(apps) >= 1, fwd.qualname, "feature maps are collected", "no feature map is appended in forward", fwd.where)
+    xparam = fwd.pos_params[1] if len(fwd.pos_params) > 1 else "x"
+    for c in apps:
+        q = _perm_of(ci, astq.expand_at(fwd.node, c.args[0], enclosing_stmt(c), depth=2, keep=[xparam]), xparam)
+        if q is None:
+            raise AnalysisError(f"{fwd.qualname}: layout conversion `{short(c.args[0], 50)}` not recognised")
+        comp = [p[i] for i in q]
+        res.ob(R, comp == [0, 1, 2, 3], fwd.qualname, f"output layout undoes the stem permutation {p}: {short(c.args[0], 40)}",
+               f"`{short(c.args[0], 50)}` permutes the stage output by {q}; after the stem's {p} the result has axes {comp} of (B, C, H, W): "
+               "height/width (or channels) are exchanged, so a non-square input gives a transposed output", f"{fwd.module.relpath}:{c.lineno}", sample={"stem": p, "out": q})
+    res.floor(R, 2)
+
+
 def check(prog: Program, res: Result) -> None:
     check_state(prog, res)
     check_pair(prog, res)
     check_sel(prog, res)
     check_chan(prog, res)
     check_width(prog, res)
+    check_layout(prog, res)
     res.assumptions.append("spatial shape arithmetic over the configuration grid (Conv2d/Upsample/PatchMerging size rules) is not decided")
 
 
@@ -342,5 +427,8 @@ VARIANTS = [
             "            in_channels = int(\n                    self.backbone.max_channels\n                    / (\n                        self.backbone_config.filters_rate\n                        ** len(self.backbone.dec.decoder_stack)\n                    )\n            )", "C14-width"),
     Variant("bp-width-round-only", M, "            in_channels = int(\n                round(\n                    self.backbone.max_channels\n                    / (\n                        self.backbone_config.filters_rate\n                        ** len(self.backbone.dec.decoder_stack)\n                    )\n                )\n            )",
             "            in_channels = round(\n                    self.backbone.max_channels\n                    / (\n                        self.backbone_config.filters_rate\n                        ** len(self.backbone.dec.decoder_stack)\n                    )\n            )", None),
+    Variant("layout-transpose", "sleap_nn/architectures/swint.py", "            features_list.append(self.permute(x))", "            features_list.append(x.transpose(1, 3).contiguous())", "C14-layout"),
+    Variant("bp-layout-permute-method", "sleap_nn/architectures/swint.py", "            features_list.append(self.permute(x))", "            features_list.append(x.permute(0, 3, 1, 2).contiguous())", None),
+    Variant("bp-layout-two-transposes", "sleap_nn/architectures/swint.py", "            features_list.append(self.permute(x))", "            features_list.append(x.transpose(1, 3).transpose(2, 3))", None),
     Variant("bp-scratch-attr", "sleap_nn/inference/single_instance.py", "        cms = self.torch_model(inputs[\"image\"])\n", "        cms = self.torch_model(inputs[\"image\"])\n        self.last_shape = cms.shape\n", None),
 ]
